@@ -312,6 +312,30 @@ def agreement_fcfg(rng):
     return {"kind": "fcfg", "prods": prods, "via": rng.choice(["text", "api"])}
 
 
+def epsilon_fcfg(rng):
+    """a nullable category wanted several times, also after input has been consumed and at the very end"""
+    feats = rng.choice([[], ["f"]])
+    fv = lambda: ({"f": rng.choice(ATOMS + ["?u"])} if feats and rng.random() < 0.6 else {})
+    body = []
+    for _ in range(rng.randint(2, 4)):
+        r = rng.random()
+        if r < 0.45:
+            body.append(["V", "A", fv()])
+        elif r < 0.6:
+            body.append(["V", "B", fv()])
+        else:
+            body.append(["T", rng.choice("ab")])
+    prods = [["S", {}, body], ["A", fv(), []], ["A", fv(), [["T", rng.choice("ab")]]]]
+    if rng.random() < 0.6:
+        prods.append(["B", fv(), [["V", "A", fv()], ["V", "A", fv()]]])
+    else:
+        prods.append(["B", fv(), [["T", "b"]]])
+    if rng.random() < 0.3:
+        prods.append(["S", {}, [["V", "S", {}], ["V", "A", fv()]]])
+    rng.shuffle(prods)
+    return {"kind": "fcfg", "prods": prods, "via": rng.choice(["text", "api"])}
+
+
 def ftxt(d):
     return "[" + ",".join("%s=%s" % (k, v) for k, v in d.items()) + "]" if d else ""
 
@@ -373,7 +397,7 @@ def plan(tier, rng, sl, nslices, stats):
         a, b = rand_spec(rng), rand_spec(rng)
         yield {"kind": "unify", "a": a, "b": b}
     for i in range(cfg["fcfg"]):
-        yield agreement_fcfg(rng) if i % 3 == 2 else rand_fcfg(rng)
+        yield agreement_fcfg(rng) if i % 4 == 2 else (epsilon_fcfg(rng) if i % 4 == 3 else rand_fcfg(rng))
 
 
 def run_case(c, stats):
